@@ -99,7 +99,7 @@ def do_run(name, checks):
         sh("git checkout -- .", cwd=REPO)
         sh("git clean -fdq -- .", cwd=REPO)
         # the generated facts now describe the mutated tree: regenerate them from the reverted one
-        sh("bin/extract %s lean/Verif/Generated work/facts.json" % REPO, cwd=ROOT)
+        sh("bin/extract %s lean/Verif/Generated work/facts.json work/optable.json" % REPO, cwd=ROOT)
     meta["verified"] = result
     json.dump(meta, open(os.path.join(d, "meta.json"), "w"), indent=1)
     print(json.dumps(result, indent=1))
